@@ -617,16 +617,51 @@ func fsm2(c *Ctx) {
 					}
 				}
 			}
+			// or a set captured by a recursive closure: a free variable holding a map keyed by *State that
+			// is assigned exactly once (before the walk starts)
+			var setFree *ssa.FreeVar
 			if setParam == nil {
+				for _, fv := range fn.FreeVars {
+					pt, isP := fv.Type().(*types.Pointer)
+					if !isP {
+						continue
+					}
+					if m, ok := pt.Elem().Underlying().(*types.Map); ok && c.isNamed(m.Key(), "internal/fsm", "State") {
+						if al := ir.CellAlloc(fv); al != nil {
+							n := 0
+							for _, ref := range ir.CellRefs(al) {
+								for _, u := range *ref.Referrers() {
+									if st, isSt := u.(*ssa.Store); isSt && st.Addr == ref {
+										n++
+									}
+								}
+							}
+							if n == 1 {
+								setFree = fv
+							}
+						}
+					}
+				}
+			}
+			isSet := func(v ssa.Value) bool {
+				if setParam != nil && v == ssa.Value(setParam) {
+					return true
+				}
+				if ld, ok := v.(*ssa.UnOp); ok && ld.Op == token.MUL && setFree != nil && ld.X == ssa.Value(setFree) {
+					return true
+				}
+				return false
+			}
+			if setParam == nil && setFree == nil {
 				c.Bad(key, fn.Pos(), "recursive walk over states without a visited-set parameter")
 			} else {
 				okAll := true
 				why := ""
 				for _, cv := range rec {
 					// the set must be passed on
-					passed := false
+					passed := setFree != nil // a captured set is shared by construction
 					for _, a := range cv.Call.Args {
-						if a == ssa.Value(setParam) {
+						if setParam != nil && a == ssa.Value(setParam) {
 							passed = true
 						}
 					}
@@ -638,7 +673,7 @@ func fsm2(c *Ctx) {
 					ir.Instrs(fn, func(in ssa.Instruction) {
 						switch x := in.(type) {
 						case *ssa.MapUpdate:
-							if x.Map == ssa.Value(setParam) {
+							if isSet(x.Map) {
 								if _, isP := x.Key.(*ssa.Parameter); isP {
 									if v, isC := ir.ConstBool(x.Value); isC && v && (x.Block().Dominates(cv.Block())) {
 										marked = true
@@ -646,7 +681,7 @@ func fsm2(c *Ctx) {
 								}
 							}
 						case *ssa.Lookup:
-							if x.X == ssa.Value(setParam) && !x.CommaOk {
+							if isSet(x.X) && !x.CommaOk {
 								if _, isP := x.Index.(*ssa.Parameter); isP && ir.HoldsAt(x, false, cv.Block()) {
 									// visited edge must return
 									ret := true
